@@ -155,7 +155,143 @@ class WedgeListSg(Contract):
         return z3.BoolVal(cfg["mismatch"] is not None and exc.exc_type == "ValueError")
 
 
-CONTRACTS = [GctfRead, Ctffind4Read, WedgeListSg]
+class _Tomos(frames._Generic):
+    """ioutils.tlt_load(tomo_list).astype(int): the tomogram numbers; iterating binds an arbitrary one"""
+
+    def __init__(self):
+        self.t = SV(z3.Real("tomogram"))
+        self.n = SV(z3.Int("n_tomograms"))
+
+    def astype(self, *a, **k):
+        return self
+
+    def __sym_len__(self):
+        return self.n
+
+    def __generic_for__(self, interp, st, env):
+        from vfw.models import kernels
+
+        def bind(e):
+            e.vars[st.target.id] = self.t
+            return []
+        kernels.generic_body(interp, st, env, bind)
+
+
+class _WedgeAccum(frames._Generic):
+    def __init__(self):
+        self.pieces, self.dropna_args, self.reset = [], None, False
+        self.shape = (SV(ctx().fresh("n_rows", "Int")), 12)
+
+    def dropna(self, **k):
+        self.dropna_args = k
+        return self
+
+    def reset_index(self, drop=False, inplace=False, **k):
+        self.reset = bool(drop and inplace)
+
+
+class WedgeListSgBatch(Contract):
+    """create_wedge_list_sg_batch, one arbitrary tomogram of its loop: create_wedge_list_sg (contract above) is called with THAT tomogram's number,
+    dimensions, z-shift and files (pattern with the number substituted) and the given constants; its table is appended to the result"""
+    prop = "C17"
+    module = "wedgeutils"
+    qual = "create_wedge_list_sg_batch"
+    configs = [{"ctf": True, "dose": True}]  # without ctf / dose patterns the file variables are loop-carried Nones, which the arbitrary-iteration model havocs: bounded only
+
+    def cfg_name(self, cfg):
+        return f"ctf={cfg['ctf']},dose={cfg['dose']}"
+
+    def bind(self, cx, cfg):
+        tomos = _Tomos()
+        dims = frames.KeyedTable("dims", "tomo_id", ["x", "y", "z"])
+        zs = frames.KeyedTable("zshift", "tomo_id", ["z_shift"])
+        cx.assume(z3.And(dims.has(tomos.t.t), zs.has(tomos.t.t)))  # requires: the per-tomogram tables list every requested tomogram
+        rec = {"calls": [], "loaded": []}
+
+        class Io:
+            @staticmethod
+            def tlt_load(x, **k):
+                rec["loaded"].append(("tlt", x))
+                return tomos
+
+            @staticmethod
+            def dimensions_load(x, *a, **k):
+                rec["loaded"].append(("dims", x))
+                return dims
+
+            @staticmethod
+            def z_shift_load(x, **k):
+                rec["loaded"].append(("zs", x))
+                return zs
+
+            @staticmethod
+            def fileformat_replace_pattern(fmt, num, letter, **k):
+                return ("file", fmt, num, letter)
+
+        acc = []
+
+        class PD:
+            @staticmethod
+            def DataFrame(*a, **k):
+                w = _WedgeAccum()
+                acc.append(w)
+                return w
+
+            @staticmethod
+            def concat(parts, **k):
+                parts = list(parts)
+                if len(parts) == 2 and isinstance(parts[0], _WedgeAccum):
+                    parts[0].pieces.append(parts[1])
+                    return parts[0]
+                raise sym.Unsupported("concat form")
+
+        def single(*a, **k):
+            rec["calls"].append((a, k))
+            return ("single-table", len(rec["calls"]))
+        g = common.base_globals()
+        g.update({"ioutils": Io, "pd": PD})
+        it = Interp("wedgeutils", g, contracts={"create_wedge_list_sg": single})
+        f = it.function("create_wedge_list_sg_batch")
+        px = SV(z3.Real("pixel_size"))
+        consts = {"voltage": SV(z3.Real("voltage")), "amp_contrast": SV(z3.Real("amp_contrast")), "cs": SV(z3.Real("cs"))}
+
+        def thunk():
+            rec["calls"], rec["loaded"] = [], []
+            acc.clear()
+            r = f("tomo_list", px, "tlt_$xxx", tomo_dim="dims_arg", z_shift="zs_arg", ctf_file_format=("ctf_$xxx" if cfg["ctf"] else None), ctf_file_type="ctffind4",
+                  dose_file_format=("dose_$xxx" if cfg["dose"] else None), **consts)
+            return dict(rec, ret=r, acc=list(acc))
+        return thunk, {"tomos": tomos, "dims": dims, "zs": zs, "px": px, "consts": consts}
+
+    def post(self, cx, cfg, inp, res):
+        t, dims, zs = inp["tomos"].t, inp["dims"], inp["zs"]
+        cl = [("inputs_loaded_from_the_given_arguments", z3.BoolVal(sorted(res["loaded"]) == sorted([("tlt", "tomo_list"), ("dims", "dims_arg"), ("zs", "zs_arg")]))),
+              ("one_call_per_tomogram_appended_to_the_result", z3.BoolVal(len(res["calls"]) == 1 and len(res["acc"]) == 1 and res["acc"][0].pieces == [("single-table", 1)] and res["ret"] is res["acc"][0] and res["acc"][0].reset))]
+        if len(res["calls"]) != 1:
+            return cl
+        a, k = res["calls"][0]
+        fileof = lambda fmt: ("file", fmt, t, "x")
+
+        def same(x, y):
+            if x is None or y is None:
+                return x is y
+            return isinstance(x, tuple) and len(x) == 4 and x[0] == "file" and x[1] == y[1] and x[2] is y[2] and x[3] == y[3]
+        cl.append(("called_for_this_tomogram", z3.BoolVal(len(a) == 1 and a[0] is t)))
+        td = k.get("tomo_dim")
+        okd = hasattr(td, "__len__") and len(td) == 3
+        cl.append(("dimensions_are_those_of_this_tomogram", z3.And(*[zr(td[i]) == dims.fn[c](t.t) for i, c in enumerate("xyz")]) if okd else z3.BoolVal(False), ()))
+        cl.append(("z_shift_is_that_of_this_tomogram", zr(k.get("z_shift")) == zs.fn["z_shift"](t.t) if isinstance(k.get("z_shift"), SV) else z3.BoolVal(False), ()))
+        cl.append(("files_are_the_patterns_with_this_tomograms_number", z3.BoolVal(same(k.get("tlt_file"), fileof("tlt_$xxx")) and same(k.get("ctf_file"), fileof("ctf_$xxx") if cfg["ctf"] else None)
+                                                                                  and same(k.get("dose_file"), fileof("dose_$xxx") if cfg["dose"] else None) and k.get("ctf_file_type") == "ctffind4")))
+        cl.append(("pixel_size_and_microscope_constants_forwarded", z3.BoolVal(k.get("pixel_size") is inp["px"] and all(k.get(n) is v for n, v in inp["consts"].items()))))
+        return cl
+
+    def replay(self, clause, model, cfg):
+        from rtc import c17 as r
+        return r.replay_kind("wedge_sg")
+
+
+CONTRACTS = [GctfRead, Ctffind4Read, WedgeListSg, WedgeListSgBatch]
 LEVEL = "other"
 EXPLANATION = ("Deductive part: the defocus loaders' arithmetic on the generic row (Angstrom -> micrometre, mean = (U+V)/2, copied astigmatism / phase shift, 0 when the phase column is absent) and the row pairing of "
                "create_wedge_list_sg (i-th tilt with i-th defocus and exposure, per-tomogram constants, one row per tilt, length mismatch rejected). Bounded part: mdoc text round trip / sort / remove / write, every "
